@@ -384,6 +384,10 @@ func drive(t *testing.T, p *PropDef) {
 		traceF, _ = os.Create(tp)
 		defer traceF.Close()
 	}
+	recheckEvery := 29
+	if v, err := strconv.Atoi(os.Getenv("VERIF_RECHECK_EVERY")); err == nil && v > 0 {
+		recheckEvery = v
+	}
 	runOnce := func(sc interface{}) *Outcome {
 		if p.CrashCapture && out != "" && (p.CrashCaptureIf == nil || p.CrashCaptureIf(sc)) {
 			sb, _ := json.Marshal(sc)
@@ -396,7 +400,7 @@ func drive(t *testing.T, p *PropDef) {
 		if traceF != nil {
 			fmt.Fprintf(traceF, "%d %d %q %d\n", evalN, o.LogHash, o.Violation, o.Steps)
 		}
-		if o.Harness == "" && evalN%29 == 0 {
+		if o.Harness == "" && evalN%recheckEvery == 0 {
 			o2 := p.Run(t, sc)
 			res.DetRechecked++
 			if o2.LogHash != o.LogHash || o2.Violation != o.Violation {
